@@ -138,7 +138,13 @@ def random_network(rng, max_nodes=8, max_branches=14, cplx=None, kinds=KINDS, n_
                 if key in b and b['ctor'] in ('voltage_source', 'current_source'):
                     b[key] = [v * src_scale for v in b[key]] if isinstance(b[key], list) else b[key] * src_scale
         branches.append(b)
-    return {'ref': rng.choice(nl), 'branches': branches}
+    # number types: one description in four is handed to the library as Python ints / numpy scalars instead of floats (chosen from
+    # the description itself, so that the random stream of everything else is unchanged)
+    k = (len(branches) * 7 + sum(len(str(b['id'])) for b in branches)) % 8
+    desc = {'ref': rng.choice(nl), 'branches': branches}
+    if k < 3:
+        desc['number_type'] = ('int', 'numpy', 'npint')[k]
+    return desc
 
 
 def small_topologies(max_nodes=3, max_branches=4):
